@@ -542,8 +542,8 @@ def check_path(spec, inst, st, res, rng, tr, seeds, angle_pins, g):
             r = None
             if has_inv and all_eq:
                 # (a) direct: the solver reasons with I*den=1; only attempted when the formula is small
-                if len(smt) < 60000:
-                    r, model, dt = run_z3(smt, names, rlimit=min(st.rlimit, 3000000), seed=st.seed & 0xFFFF, timeout_ms=20000)
+                if len(smt) < (20000 if st.tier == "quick" else 60000):
+                    r, model, dt = run_z3(smt, names, rlimit=min(st.rlimit, 3000000), seed=st.seed & 0xFFFF, timeout_ms=2000 if st.tier == "quick" else 20000)
                     res.queries += 1
                     res.solver_time += dt
                     if r in ("sat", "unsat"):
